@@ -85,6 +85,9 @@ where
             self.low = val;
         }
 
+        if self.q_out.len() >= self.window_len {
+            self.q_out.pop_front();
+        }
         if self.high == self.low {
             self.q_out.push_back(T::zero());
             return;
